@@ -3,6 +3,7 @@ package main
 import (
 	"bytes"
 	"fmt"
+	"io"
 	"strings"
 	"time"
 
@@ -268,7 +269,156 @@ func downloadPeerScenario(depth int, etag bool) *mcx.Scenario {
 	}
 }
 
+// bothPeerScenario: a request with a body (PUT / POST; block-wise Block1 upload or a single-block body) whose
+// response is block-wise too. The virtual peer is a conforming client; the network may re-deliver its previous
+// request with a fresh message ID at any point - also after the exchange has finished - and stored state may
+// expire. Whatever happens, the application is only ever handed the body the peer uploaded.
+func bothPeerScenario(depth int, code codes.Code, small bool) *mcx.Scenario {
+	name := fmt.Sprintf("udp scripted peer: %v with a body (single block=%v) answered block-wise, previous request re-delivered (fresh message ID) at any point incl. after the end, depth=%d", code, small, depth)
+	return &mcx.Scenario{
+		Name:   name,
+		Bounds: mcx.Bounds{Preempt: 0, Env: -1, Select: 0},
+		Opt:    vrt.Options{MaxSteps: 600000},
+		Body: func(s *vrt.Sched) func() (string, []mcx.Finding) {
+			var hist []string
+			var fs []mcx.Finding
+			fail := func(sig, format string, a ...any) {
+				fs = append(fs, mcx.Finding{Sig: sig, What: name + ": " + fmt.Sprintf(format, a...) + "; requests sent [" + strings.Join(hist, " ") + "]"})
+			}
+			completed, handled := 0, 0
+			vrt.App("peer", func() {
+				up := pattern(2*pblk, 0x21)
+				if small {
+					up = pattern(pblk/2, 0x21)
+				}
+				report := pattern(3*pblk, 0x61)
+				finalsSent := 0
+				B := udpw.New(udpw.Opts{NStart: 4, MaxRetransmit: 2, LimitTotal: 4, LimitEndpoint: 4, QueueSize: 8, BlockWise: true, SZX: blockwise.SZX16, FirstMID: 3000, BWTimeout: 5 * time.Second,
+					Handler: func(w *responsewriter.ResponseWriter[*client.Conn], r *pool.Message) {
+						track.Hold(r, "request inside a handler")
+						defer track.Unhold(r)
+						handled++
+						var got []byte
+						if r.Body() != nil {
+							got, _ = io.ReadAll(r.Body())
+						}
+						if !bytes.Equal(got, up) {
+							fail("peer/application-handed-a-body-nobody-uploaded", "the application was handed %v with a %d-byte body %s; the only body the peer ever uploaded has %d bytes", r.Code(), len(got), head(got), len(up))
+						}
+						if handled > finalsSent {
+							fail("peer/application-handed-more-requests-than-were-completed", "handler invocation %d, the request was completed %d time(s) on the wire", handled, finalsSent)
+						}
+						_ = w.SetResponse(codes.Changed, message.AppOctets, bytes.NewReader(report))
+					}})
+				tok := message.Token{0xD4, 0x07}
+				path := message.Options{{ID: message.URIPath, Value: []byte("res")}, {ID: message.ContentFormat, Value: []byte{42}}}
+				nUp := (len(up) + pblk - 1) / pblk
+				sentUp := 0     // upload blocks acknowledged
+				var held []byte // response blocks appended
+				done := false
+				type wire struct {
+					opts    message.Options
+					payload []byte
+					final   bool
+				}
+				var last *wire
+				alpha := []string{"next", "dup-prev", "tick"}
+				mid := int32(900)
+				for step := 0; step < depth; step++ {
+					e := alpha[vrt.Choose(len(alpha), nil)]
+					if e == "tick" {
+						hist = append(hist, e)
+						B.Tick(6 * time.Second)
+						vrt.Quiesce("peer: tick")
+						B.NewOuts()
+						continue
+					}
+					var wm *wire
+					switch e {
+					case "next":
+						if done {
+							continue
+						}
+						switch {
+						case small && len(held) == 0:
+							wm = &wire{opts: path, payload: up, final: true}
+						case !small && sentUp < nUp:
+							more := sentUp < nUp-1
+							bo, _ := blockwise.EncodeBlockOption(blockwise.SZX16, int64(sentUp), more)
+							o := append(append(message.Options{}, path...), message.Option{ID: message.Block1, Value: encodeUint(bo)})
+							if sentUp == 0 {
+								o = append(o, message.Option{ID: message.Size1, Value: encodeUint(uint32(len(up)))})
+							}
+							wm = &wire{opts: o, payload: up[sentUp*pblk : (sentUp+1)*pblk], final: !more}
+						default:
+							bo, _ := blockwise.EncodeBlockOption(blockwise.SZX16, int64(len(held)/pblk), false)
+							wm = &wire{opts: append(message.Options{{ID: message.URIPath, Value: []byte("res")}}, message.Option{ID: message.Block2, Value: encodeUint(bo)})}
+						}
+						last = wm
+					default:
+						if last == nil {
+							continue
+						}
+						wm = last
+					}
+					hist = append(hist, e)
+					if wm.final {
+						finalsSent++
+					}
+					mid++
+					_ = B.Inject(message.Message{Type: message.Confirmable, Code: code, MessageID: mid, Token: tok, Options: wm.opts, Payload: wm.payload})
+					vrt.Quiesce("peer: request processed")
+					for _, o := range B.NewOuts() {
+						if !bytes.Equal(o.M.Token, tok) || done {
+							continue
+						}
+						switch {
+						case o.M.Code == codes.Continue:
+							if b1, err := o.M.Options.GetUint32(message.Block1); err == nil {
+								if _, num, _, _ := blockwise.DecodeBlockOption(b1); int(num) == sentUp {
+									sentUp++
+								}
+							}
+						case o.M.Code == codes.Changed:
+							if !small && sentUp == nUp-1 {
+								sentUp = nUp
+							}
+							bo, err := o.M.Options.GetUint32(message.Block2)
+							if err != nil {
+								fail("peer/block-response-without-block-option", "a %d-byte body was answered without Block2: %v", len(report), udpw.Describe(o.M))
+								continue
+							}
+							szx, num, more, _ := blockwise.DecodeBlockOption(bo)
+							if int(num)*int(szx.Size()) != len(held) {
+								continue
+							}
+							held = append(held, o.M.Payload...)
+							if !more {
+								completed++
+								done = true
+								if !bytes.Equal(held, report) {
+									fail("peer/receiver-assembled-mixed-body", "the receiver ends with %d bytes %s, the application supplied %d bytes", len(held), head(held), len(report))
+								}
+							}
+						case o.M.Code >= codes.BadRequest:
+							done = true // the exchange failed: allowed
+						}
+					}
+				}
+				vrt.Metric("exchanges_completed", int64(completed))
+			})
+			return func() (string, []mcx.Finding) {
+				return fmt.Sprintf("%s|%d|%d", strings.Join(hist, " "), completed, handled), fs
+			}
+		},
+	}
+}
+
 func addPeer(r *ev.Run, scs *[]*mcx.Scenario) {
+	for _, code := range []codes.Code{codes.PUT, codes.POST} {
+		*scs = append(*scs, bothPeerScenario(ev.Pick(r, 7, 9), code, false))
+		*scs = append(*scs, bothPeerScenario(ev.Pick(r, 6, 8), code, true))
+	}
 	*scs = append(*scs, uploadPeerScenario(ev.Pick(r, 5, 6)))
 	*scs = append(*scs, downloadPeerScenario(ev.Pick(r, 6, 8), false))
 	*scs = append(*scs, downloadPeerScenario(ev.Pick(r, 6, 8), true))
